@@ -277,7 +277,7 @@ theorem output_loop_runs (s : Setup) (hwf : s.WF) (u0 u1 : Nat) (h01 : u0 < u1) 
     (hne : s.output ≠ []) (hpass : AllPassA s.output um al) (hu : u.isEmpty = false) (h1c : u1 < c)
     (hF : FactsO (σ.update u) 0 (s.output.map (·.name)) um al) :
     ∃ σ' c', RunsTo s (base ++ s.rails) (headStateO σ u c u0 u1) (railObs "output" 0 s.output um al) (exitStateO σ' c' u0 u1) ∧
-      FactsO σ' s.output.length (s.output.map (·.name)) (finalVals s.output um al).1 (finalVals s.output um al).2 ∧ Keep K8 (σ.update u) σ' := by
+      FactsO σ' s.output.length (s.output.map (·.name)) (finalVals s.output um al).1 (finalVals s.output um al).2 ∧ Keep K8 (σ.update u) σ' ∧ u1 < c' := by
   -- split off the last rail
   obtain ⟨pre, last, hsplit⟩ : ∃ pre last, s.output = pre ++ [last] := ⟨s.output.dropLast, s.output.getLast hne, (List.dropLast_concat_getLast hne).symm⟩
   have allsplit : ∀ (l : List IRail) (um al : V), AllPassA (l ++ [last]) um al → AllPassA l um al ∧ passes last (finalVals l um al).1 := by
@@ -302,7 +302,7 @@ theorem output_loop_runs (s : Setup) (hwf : s.WF) (u0 u1 : Nat) (h01 : u0 < u1) 
   have hk : s.output[0 + pre.length]? = some last := by rw [hsplit]; simp
   have hlen : 0 + pre.length + 1 = s.output.length := by rw [hsplit]; simp
   obtain ⟨σ', R2, hF2, hK2⟩ := iterO_exit_runs s hwf u0 u1 h01 σ1 u1' c1 hu1 hc1 (0 + pre.length) _ _ last hk hlen hF1 hp2
-  refine ⟨σ', c1 + 1, ?_, ?_, hK1.trans hK2⟩
+  refine ⟨σ', c1 + 1, ?_, ?_, hK1.trans hK2, by omega⟩
   · have := R1.trans R2
     rw [hsplit, obssplit]; exact this
   · rw [← hlen]
